@@ -18,7 +18,7 @@ ENGINES = [
 ]
 CHECKS = {
     "C01": {"engine": "G+F", "design_ref": "DESIGN.md section 3 C01",
-            "technique": "static analysis: capture-scope def/use between grammar results names and parse actions, call binding against constructor signatures/annotations, marker-to-spelling chain, shape of named results (value / list / wrapped node) against the constructor's use; Class.Members.__init__ and collect_namespaces run by the analyser's interpreter on sample member sequences / parent chains (filed once per kind, source order, outermost-first paths); constructors of parser nodes checked for lossy rebinding / completed flags",
+            "technique": "static analysis: capture-scope def/use between grammar results names and parse actions, call binding against constructor signatures/annotations, marker-to-spelling chain, shape of named results (value / list / wrapped node) against the constructor's use; Class.Members.__init__ and collect_namespaces run by the analyser's interpreter on sample member sequences / parent chains (filed once per kind, source order, outermost-first paths); constructors of parser nodes checked for lossy rebinding / completed flags; Namespace.__init__ and CustomType.__init__ run on sample blocks / qualified names incl. every a::b literal the constructor mentions (G19)",
             "text": "Decides that nothing the grammar matches is dropped, invented or routed to another field "
                     "between the grammar and the node objects (every information point of every parse action's "
                     "capture scope is read; every read name is defined; constructor binding by arity, keyword "
@@ -27,21 +27,21 @@ CHECKS = {
                     "Does not decide which alternative the longest-match Or picks for ambiguous inputs.",
             "note": TB},
     "C02": {"engine": "F", "design_ref": "DESIGN.md section 3 C02",
-            "technique": "static analysis: interprocedural provenance ('instantiated-ness') of every type-carrying constructor parameter, recursion/worklist shape, substring-rewrite lint, qualifier-forwarding binding; the nested template-argument walk run by the analyser's interpreter on sample argument trees; provenance element-wise through tuple results; instantiate_type itself run on sample type expressions and spelled by the tool's own to_cpp; may-analysis that no primitive works on already substituted types",
+            "technique": "static analysis: interprocedural provenance ('instantiated-ness') of every type-carrying constructor parameter, recursion/worklist shape, substring-rewrite lint, qualifier-forwarding binding; the nested template-argument walk run by the analyser's interpreter on sample argument trees; provenance element-wise through tuple results; instantiate_type itself run on sample type expressions and spelled by the tool's own to_cpp; may-analysis that no primitive works on already substituted types; S14 with a second binding whose concrete type is spelled like another parameter, templated types as the parser builds them, three-component scoped uses",
             "text": "Decides that every type-carrying position of every node rebuilt by the instantiator is sent "
                     "through the substitution primitives, that the substitution reaches every nesting depth, "
                     "matches whole identifiers only, forwards qualifiers/names/defaults, and treats `This` by "
                     "equality. Does not decide value-level equality of the resulting spellings for all inputs.",
             "note": TB + "; type-carrying fields taken from the parser classes' own annotations"},
     "C03": {"engine": "E+F+G", "design_ref": "DESIGN.md section 3 C03",
-            "technique": "static analysis: node-kind / member-kind exhaustiveness between grammar, instantiator and emitter dispatch; dominance of filter/ignore/escape steps over the emissions they protect; guards of wrap_namespace read as constraints on the depth relative to the top namespace (abstract evaluation for d=-2..2); _partial_match and _gen_module_var evaluated by the analyser's interpreter on sample namespace paths; folded-template slot provenance; wrap_operators run on sample operators; keyword table evaluated against the keyword module; the whole class block produced by running wrap_instantiated_class on a sample class (members)",
+            "technique": "static analysis: node-kind / member-kind exhaustiveness between grammar, instantiator and emitter dispatch; dominance of filter/ignore/escape steps over the emissions they protect; guards of wrap_namespace read as constraints on the depth relative to the top namespace (abstract evaluation for d=-2..2); _partial_match and _gen_module_var evaluated by the analyser's interpreter on sample namespace paths; folded-template slot provenance; wrap_operators run on sample operators; keyword table evaluated against the keyword module; the whole class block produced by running wrap_instantiated_class on a sample class (members); class blocks run for every class spelling / member name the generator special-cases, read off its own comparisons (A13); wrap_namespace run on a tree with re-opened namespaces (A4)",
             "text": "Decides that every node and member kind the instantiated tree can contain has an emitter, that "
                     "the top-namespace filter, the ignore test, the once-per-submodule declaration and the keyword "
                     "escape dominate the emissions they protect, and that namespace depth is computed relative to "
                     "the configured top namespace. Does not decide exactly-once per declaration for every input.",
             "note": TB + "; keyword.kwlist of CPython 3.12 is the reference list"},
     "C04": {"engine": "E", "design_ref": "DESIGN.md section 3 C04",
-            "technique": "static analysis: constant-folded emission templates with slot provenance; abstract evaluation of the method/static partition; sibling projections of one argument list; scope qualifier of free functions evaluated on sample paths and top-module settings; read-only choice evaluated over all marker combinations; name-taint of the free-function emitter; class block by evaluation (forwarding); to_cpp of the instantiated callables on a templated instantiation",
+            "technique": "static analysis: constant-folded emission templates with slot provenance; abstract evaluation of the method/static partition; sibling projections of one argument list; scope qualifier of free functions evaluated on sample paths and top-module settings; read-only choice evaluated over all marker combinations; name-taint of the free-function emitter; class block by evaluation (forwarding); to_cpp of the instantiated callables on a templated instantiation; instantiate_type on templated types with their parameter types (B15); instantiate_parent_class run on classes whose namespace declares a class named like the base (B16)",
             "text": "Decides the shape of every generated lambda/registration for all inputs (one argument list in "
                     "declared order for parameters, call and py::arg; default on its own parameter; def/def_static, "
                     "receiver and self parameter agree per member kind; return iff non-void; readonly iff const; "
@@ -65,7 +65,7 @@ CHECKS = {
                     "recorded. 'k+1 arities for all k' as arithmetic and MATLAB isa semantics are not decided.",
             "note": TB},
     "C07": {"engine": "G+F", "design_ref": "DESIGN.md section 3 C07",
-            "technique": "static analysis: end-anchor and capture-completeness of the grammar, call-graph effect analysis (may-reject before first write on all paths), handler audit, validated-lookup returns, boundedness of free-text token classes, name-dispatch chains over open name sets reject what they do not list; repetition-shaped results traced into constructors (all values kept); progress analysis of every while loop (paths through the body that change nothing the condition reads)",
+            "technique": "static analysis: end-anchor and capture-completeness of the grammar, call-graph effect analysis (may-reject before first write on all paths), handler audit, validated-lookup returns, boundedness of free-text token classes, name-dispatch chains over open name sets reject what they do not list; repetition-shaped results traced into constructors (all values kept); progress analysis of every while loop (paths through the body that change nothing the condition reads); the validating constructors run on declarations that must be refused and their valid neighbours (V6); a handler may end the run as a failure (V4)",
             "text": "Decides: the parse root is end-anchored and is the only parse entry; every accepted token "
                     "reaches the tree; the parser terminates structurally (no left recursion / nullable "
                     "repetition); no handler on a path from the entry points swallows a parse/validation error; "
@@ -75,14 +75,14 @@ CHECKS = {
                     "language.",
             "note": TB + "; rejections are ParseBaseException/ValueError/AssertionError; asserts active (no -O)"},
     "C08": {"engine": "F", "design_ref": "DESIGN.md section 3 C08",
-            "technique": "static analysis: shape of every itertools.product site, typedef-path binding resolved before any content replacement, pass-through loop structure, single naming helper, no shared resolution state, parent links stay truthy, Typename.instantiated_name evaluated by the analyser's interpreter on sample type trees; find_sub_namespace and instantiate_namespace run by the analyser's interpreter on sample trees (lazy generators with late binding, recorded constructors)",
+            "technique": "static analysis: shape of every itertools.product site, typedef-path binding resolved before any content replacement, pass-through loop structure, single naming helper, no shared resolution state, parent links stay truthy, Typename.instantiated_name evaluated by the analyser's interpreter on sample type trees; find_sub_namespace and instantiate_namespace run by the analyser's interpreter on sample trees (lazy generators with late binding, recorded constructors); sample namespace with bare-template / empty / hollow namespaces and a typedef in front of its template's namespace (N11); explicit template arguments of instantiated callables (N12)",
             "text": "Decides that instantiations are enumerated as the Cartesian product of the parsed lists in "
                     "declaration order at all three levels, that typedefs build exactly one instantiation with "
                     "the typedef's arguments and name, that everything else passes through once in order, and "
                     "that names/spellings come from one helper that capitalises position 0 only.",
             "note": TB + "; itertools.product ordering as documented"},
     "C09": {"engine": "E", "design_ref": "DESIGN.md section 3 C09",
-            "technique": "static analysis: slot completeness and delimiter balance of every folded template (by induction over slot values), string-kind adjacency, re-use of C04/B1 and C02/S1-S2; emitters for free functions / methods / static methods run on sample declarations, emitted lambda checked (names passed are the lambda's own parameters); class block by evaluation (balanced, one statement); docstring literal round trip through a byte-level decoder of C++ narrow literals",
+            "technique": "static analysis: slot completeness and delimiter balance of every folded template (by induction over slot values), string-kind adjacency, re-use of C04/B1 and C02/S1-S2; emitters for free functions / methods / static methods run on sample declarations, emitted lambda checked (names passed are the lambda's own parameters); class block by evaluation (balanced, one statement); docstring literal round trip through a byte-level decoder of C++ narrow literals; wrap_namespace on re-opened namespaces (W6); placement of typedef'd instantiations behind nested namespaces (W18)",
             "text": "Decides well-formedness conditions of the emitted C++ that are visible in the templates: no "
                     "missing/unused placeholder, balanced delimiters in every literal skeleton, no namespace prefix "
                     "in front of expression text, lambda/keyword arity, no unsubstituted parameter. 'Compiles against "
@@ -111,14 +111,14 @@ CHECKS = {
                     "byte-identical generator output (follows from equal trees + C14).",
             "note": TB},
     "C13": {"engine": "F", "design_ref": "DESIGN.md section 3 C13",
-            "technique": "static analysis: ownership along access paths (shallow vs deep copies, re-bound attributes, local helpers, accessors and constructors followed; reaching definitions, accumulator parameters, closures), key-only use of template parameter names, no shared module/class state; wrapper attributes filled per class may guard book-keeping only (closure of wrap_instantiated_class); ownership through accessors; instantiate_type purity by evaluation; order of combinations by evaluation with parameter names that sort against their declaration order",
+            "technique": "static analysis: ownership along access paths (shallow vs deep copies, re-bound attributes, local helpers, accessors and constructors followed; reaching definitions, accumulator parameters, closures), key-only use of template parameter names, no shared module/class state; wrapper attributes filled per class may guard book-keeping only (closure of wrap_instantiated_class); ownership through accessors; instantiate_type purity by evaluation; order of combinations by evaluation with parameter names that sort against their declaration order; Template.TypenameAndInstantiations run on plain, templated and mixed lists, entry by entry (P14)",
             "text": "Decides the aliasing discipline that makes instantiations independent: every in-place "
                     "modification in the instantiator hits a freshly created value; lists handed to the re-parenting "
                     "Class constructor are rebuilt; parameter names are lookup keys only; no cross-run state in "
                     "parser or instantiator. Does not re-prove output equality under alpha-renaming as a value fact.",
             "note": TB + "; deepcopy yields an independent graph; instantiate_namespace's in/out parameter exempt by name"},
     "C14": {"engine": "F", "design_ref": "DESIGN.md section 3 C14",
-            "technique": "static analysis: effect analysis over the call graph (nondeterminism sources, unordered collections, un-reset accumulators, provenance of write/read paths, whole-file writes, must-definition of per-item state, memo-key completeness); mutable default parameter values traced for in-place modification / escape; configuration attributes (computed by the constructor from its arguments) never re-bound or mutated by another method (R11); abspath-like calls exempt only where path flow shows the value merely names a file",
+            "technique": "static analysis: effect analysis over the call graph (nondeterminism sources, unordered collections, un-reset accumulators, provenance of write/read paths, whole-file writes, must-definition of per-item state, memo-key completeness); mutable default parameter values traced for in-place modification / escape; configuration attributes (computed by the constructor from its arguments) never re-bound or mutated by another method (R11); abspath-like calls exempt only where path flow shows the value merely names a file; Path-typed locals followed in the effect scan",
             "text": "Decides the effect discipline that makes generation a repeatable function: no "
                     "nondeterministic source or hash-ordered collection reachable, per-file state reset, every "
                     "written path derived from a caller-chosen output location (or <stem>+constant suffix), "
@@ -156,7 +156,7 @@ CHECKS = {
                     "call histories are not decided.",
             "note": "trusted: clang 14 parser/Sema; /verif/stubs declare the documented MEX C API and minimal gtsam types"},
     "C19": {"engine": "G", "design_ref": "DESIGN.md section 3 C19",
-            "technique": "static analysis: memoisation-enabled lint over all modules + left-recursion/nullable-repetition/alternative-order analysis of the grammar IR, recursion fan-out of methods reachable from parse actions (call graph by name), no nested parse inside parse actions, regex ASTs (re._parser) checked for ambiguous nested repetition",
+            "technique": "static analysis: memoisation-enabled lint over all modules + left-recursion/nullable-repetition/alternative-order analysis of the grammar IR, recursion fan-out of methods reachable from parse actions (call graph by name), no nested parse inside parse actions, regex ASTs (re._parser) checked for ambiguous nested repetition; call graph over methods, properties and constructors of the node classes: a function on a cycle enters it once per child (Z9)",
             "text": "Decides the structural preconditions of polynomial parsing (memoisation on, unconditional, "
                     "never overridden; no left recursion; no nullable repetition). No time bound is claimed: "
                     "timing is a run-time quantity.",
